@@ -104,7 +104,10 @@ def tr_type_safe_block(node):
 
 
 def tr_deep(f):
-    if not ([a.arg for a in f.args.args] == ['self'] and f.args.kwarg is not None and f.args.kwarg.arg == 'kwargs'
+    if [a.arg for a in f.args.args] == ['self'] and not f.args.posonlyargs:
+        bad('deep_copy_with(self, **kwargs): self can be passed by keyword (pre-fix shape of C11-field-named-self: a field named self '
+            'cannot be replaced, TypeError multiple values for argument self)')
+    if not ([a.arg for a in f.args.posonlyargs] == ['self'] and not f.args.args and f.args.kwarg is not None and f.args.kwarg.arg == 'kwargs'
             and not f.args.vararg and not f.args.kwonlyargs and not f.decorator_list):
         bad('signature of deep_copy_with changed')
     b = strip_doc(f.body)
@@ -340,7 +343,10 @@ def translate():
 
     # ---- copy_with
     cw = found['copy_with']
-    if not ([x.arg for x in cw.args.args] == ['self'] and cw.args.kwarg is not None and cw.args.kwarg.arg == 'kwargs'
+    if [x.arg for x in cw.args.args] == ['self'] and not cw.args.posonlyargs:
+        bad('copy_with(self, **kwargs): self can be passed by keyword (pre-fix shape of C11-field-named-self: a field named self '
+            'cannot be replaced, TypeError multiple values for argument self)')
+    if not ([x.arg for x in cw.args.posonlyargs] == ['self'] and not cw.args.args and cw.args.kwarg is not None and cw.args.kwarg.arg == 'kwargs'
             and not cw.args.vararg and not cw.args.kwonlyargs and not cw.decorator_list):
         bad('signature of copy_with changed')
     cb = strip_doc(cw.body)
